@@ -17,7 +17,7 @@ pub struct C16;
 ///   variant 3: the last file exists in the including directory AND in INCLUDE_DIR (directory wins;
 ///              the INCLUDE_DIR copy declares a different class)
 ///   variant 4: every include statement is written twice
-///   variant 5: f0's includes are nested inside `let … in { }`
+///   variant 5: f0's includes are nested inside a block: let / foreach / if / multiclass > foreach
 ///   variant 6: two directories: odd files live in INCLUDE_DIR, even files next to the root; both
 ///              directories hold their own common.td, which every file includes by the same text
 fn build(n: usize, edges: u64, variant: u64) -> (Vec<(String, String)>, Vec<Vec<usize>>) {
@@ -49,7 +49,13 @@ fn build(n: usize, edges: u64, variant: u64) -> (Vec<(String, String)>, Vec<Vec<
             incs.push_str("include \"nowhere.td\"\n");
         }
         if i == 0 && variant == 5 && !incs.is_empty() {
-            t.push_str(&format!("let zz = 1 in {{\n{incs}}}\n"));
+            // the root's includes are nested in a block; which kind depends on the graph
+            match edges % 4 {
+                0 => t.push_str(&format!("let zz = 1 in {{\n{incs}}}\n")),
+                1 => t.push_str(&format!("foreach zi = [1] in {{\n{incs}}}\n")),
+                2 => t.push_str(&format!("if 1 then {{\n{incs}}}\n")),
+                _ => t.push_str(&format!("multiclass ZM {{\n  foreach zi = [1] in {{\n{incs}  }}\n}}\n")),
+            }
         } else {
             t.push_str(&incs);
         }
@@ -102,9 +108,6 @@ fn check(n: usize, edges: u64, variant: u64) -> Verdict {
         if !reach.insert(i) {
             continue;
         }
-        if i == 0 && nested {
-            continue; // nested includes: asserted separately below
-        }
         for &j in &adj[i] {
             stack.push(j);
         }
@@ -120,19 +123,6 @@ fn check(n: usize, edges: u64, variant: u64) -> Verdict {
         let shape = if nested { ":nested-include" } else { "" };
         Verdict::Fail(Failure::new(oracle, format!("{oracle}{shape}"), format!("n={n} edges={edges:#b} variant={variant}: {detail}")))
     };
-
-    if nested {
-        // an include statement inside a block still names an existing file: it must produce either
-        // a link (resolved) or … it resolves per the documented search order, so a link is expected
-        let text = &files[0].1;
-        let links = a.document_link(ws.root).unwrap_or_default();
-        let want = adj[0].len();
-        if links.len() != want {
-            return fail("C16.links", format!("root has {want} resolvable include statements (nested in a let block) but {} document links; diagnostics: {:?}", links.len(), diags.get(&ws.root).map(|d| d.iter().map(|x| x.message.clone()).collect::<Vec<_>>())));
-        }
-        let _ = text;
-        return Verdict::Pass { nontrivial: want > 0, labels: vec!["nested-include"] };
-    }
 
     // (2) workspace = reachable set
     let got: BTreeSet<String> = diags.keys().filter_map(|f| ws.fs.path_of(*f)).collect();
@@ -205,6 +195,10 @@ fn check(n: usize, edges: u64, variant: u64) -> Verdict {
         if variant == 6 {
             want_names.insert(format!("c{i}"), 1);
         }
+        if variant == 5 && i == 0 && edges % 4 == 3 && !adj[0].is_empty() {
+            // the multiclass that holds the root's nested includes
+            want_names.insert("ZM".to_string(), 1);
+        }
         if names != want_names {
             return fail("C16.single-indexing", format!("file {i}: outline {names:?}, expected {want_names:?}"));
         }
@@ -256,7 +250,7 @@ impl Property for C16 {
         "C16"
     }
     fn rule(&self) -> String {
-        "exhaustive: every edge set (self-loops included) over <=3 files (thorough: <=4, all 65536) x 7 variants {plain, +missing include, last file only in INCLUDE_DIR, last file in both directory and INCLUDE_DIR, every include written twice, root's includes nested in a let block, two directories that each hold their own common.td included everywhere by the same text}; quick adds 3000 sampled 4-file graphs; thorough adds random graphs over 5..8 files. Each file = class K<i>; its include statements; one def per included file using that file's class. Oracle: set_root_file + index terminate (traversal budget), keys(diagnostics()) = reference reachable set, document links = one per resolvable include statement on its string literal with the reference target, a diagnostic on each unresolvable include and none elsewhere, each declaration once in its file's outline, references(K<j>) = its uses in every reachable includer. distinct = digest; non-trivial = the graph has a cycle or a diamond, or the variant is not plain".into()
+        "exhaustive: every edge set (self-loops included) over <=3 files (thorough: <=4, all 65536) x 7 variants {plain, +missing include, last file only in INCLUDE_DIR, last file in both directory and INCLUDE_DIR, every include written twice, root's includes nested in a block (let / foreach / if / a foreach inside a multiclass, by graph), two directories that each hold their own common.td included everywhere by the same text}; quick adds 3000 sampled 4-file graphs; thorough adds random graphs over 5..8 files. Each file = class K<i>; its include statements; one def per included file using that file's class. Oracle: set_root_file + index terminate (traversal budget), keys(diagnostics()) = reference reachable set, document links = one per resolvable include statement on its string literal with the reference target, a diagnostic on each unresolvable include and none elsewhere, each declaration once in its file's outline, references(K<j>) = its uses in every reachable includer. distinct = digest; non-trivial = the graph has a cycle or a diamond, or the variant is not plain".into()
     }
     fn assumptions(&self) -> Vec<String> {
         vec!["search order from the documentation: directory of the including file, then $INCLUDE_DIR (set once per process to a virtual directory)".into()]
